@@ -410,5 +410,5 @@ func runRwInner(s RwScript) (bool, string, *vt.Finding) {
 }
 
 func TestJSONRewrite(t *testing.T) {
-	vt.Run(t, cRw, vt.N(12000, 300000), genRw, runRw)
+	vt.Run(t, cRw, vt.N(9000, 300000), genRw, runRw)
 }
